@@ -11,6 +11,9 @@ V=$(cd "$(dirname "$0")" && pwd)
 id=$1; k=$2; shift 2
 checks=${*:-$id}
 src=/tmp/advout-$id/$k; wt=/tmp/adv-$id
+# re-validation of a change that is already kept: take it from seeded/ and (re)create the scratch worktree
+[ -f "$src/patch.diff" ] || src=$V/seeded/$id-$k
+[ -d "$wt" ] || git -C /repo worktree add -q --detach $wt HEAD
 [ -f "$src/patch.diff" ] || { echo "no $src/patch.diff"; exit 2; }
 dd=$(python3 -c "import json;print(json.load(open('$src/meta.json')).get('demo_dir','test'))")
 git -C $wt checkout -q -- . ; git -C $wt clean -qfd
@@ -41,7 +44,7 @@ done
 git -C $wt checkout -q -- . ; git -C $wt clean -qfd
 ok=1; case "$clean" in ok*) ;; *) ok=0;; esac; case "$suite" in *FAIL*) ok=0;; esac; case "$demo" in *FAIL*) ;; *) ok=0;; esac
 if [ $ok = 1 ]; then
-  d=$V/seeded/$id-$k; mkdir -p $d; cp $src/patch.diff $src/demo_test.go $d/
+  d=$V/seeded/$id-$k; mkdir -p $d; [ "$src" = "$d" ] || cp $src/patch.diff $src/demo_test.go $d/
   python3 - "$src/meta.json" "$d/meta.json" "$clean" "$suite" "$demo" "$res" <<'PY'
 import json,sys
 m=json.load(open(sys.argv[1]))
